@@ -80,19 +80,41 @@ impl<'a> Ts<'a> {
         product(&alph)
     }
 
-    /// all initial states
-    pub fn initial_states(&self) -> Vec<StateVec> {
+    /// true when some init expression reads an input: then s0 = init(i0) is coupled with the input of step 0
+    pub fn init_reads_inputs(&self) -> bool {
+        fn reads(ctx: &Context, e: ExprRef, inputs: &[ExprRef], seen: &mut FxHashSet<ExprRef>) -> bool {
+            if !seen.insert(e) {
+                return false;
+            }
+            if inputs.contains(&e) {
+                return true;
+            }
+            let mut kids = vec![];
+            patronus::expr::ForEachChild::for_each_child(&ctx[e], |c| kids.push(*c));
+            kids.into_iter().any(|c| reads(ctx, c, inputs, seen))
+        }
+        let mut seen = FxHashSet::default();
+        self.sys.states.iter().filter_map(|s| s.init).any(|i| reads(self.ctx, i, &self.sys.inputs, &mut seen))
+    }
+
+    /// initial states under one binding of the inputs (None: inputs unbound — a reference panics)
+    fn initial_states_under(&self, inp: Option<&[Val]>) -> Vec<StateVec> {
         let mut partial: Vec<StateVec> = vec![vec![]];
         for (k, st) in self.sys.states.iter().enumerate() {
             let mut next = vec![];
             for p in partial.iter() {
                 match st.init {
                     Some(init) => {
-                        // earlier states are bound; later states and inputs are not (a reference
-                        // to them is outside the stated well-formedness domain and panics)
+                        // earlier states are bound (and the inputs of step 0 when given); later states are
+                        // not (a reference to them is outside the well-formedness domain and panics)
                         let mut env = Env::default();
                         for (s2, v) in self.sys.states.iter().zip(p.iter()) {
                             env.insert(s2.symbol, v.clone());
+                        }
+                        if let Some(inp) = inp {
+                            for (i, v) in self.sys.inputs.iter().zip(inp.iter()) {
+                                env.insert(*i, v.clone());
+                            }
                         }
                         let v = eval_ref(self.ctx, init, &env);
                         let mut q = p.clone();
@@ -111,6 +133,31 @@ impl<'a> Ts<'a> {
             partial = next;
         }
         partial
+    }
+
+    /// all initial states (over every input of step 0 when an init expression reads an input)
+    pub fn initial_states(&self) -> Vec<StateVec> {
+        self.initial_configs().into_iter().map(|(s, _)| s).collect()
+    }
+
+    /// initial states, each with the inputs of step 0 it is coupled with (None: any input)
+    pub fn initial_configs(&self) -> Vec<(StateVec, Option<Vec<InputVec>>)> {
+        if !self.init_reads_inputs() {
+            return self.initial_states_under(None).into_iter().map(|s| (s, None)).collect();
+        }
+        let mut order: Vec<String> = vec![];
+        let mut map: FxHashMap<String, (StateVec, Vec<InputVec>)> = FxHashMap::default();
+        for i in self.input_space() {
+            for s in self.initial_states_under(Some(&i)) {
+                let k = key(&s);
+                let e = map.entry(k.clone()).or_insert_with(|| {
+                    order.push(k.clone());
+                    (s.clone(), vec![])
+                });
+                e.1.push(i.clone());
+            }
+        }
+        order.into_iter().map(|k| map.remove(&k).map(|(s, ins)| (s, Some(ins))).unwrap()).collect()
     }
 
     pub fn allowed(&self, st: &[Val], inp: &[Val]) -> bool {
@@ -151,12 +198,26 @@ impl<'a> Ts<'a> {
         let inputs = self.input_space();
         let mut seen: FxHashSet<String> = FxHashSet::default();
         let mut frontier: Vec<StateVec> = vec![];
-        for s in self.initial_states() {
-            if seen.insert(key(&s)) {
-                frontier.push(s);
+        // inputs an initial state is coupled with at step 0 (only when an init expression reads an input);
+        // such a state counts as explored only if it is coupled with every input
+        let mut first: FxHashMap<String, Vec<InputVec>> = FxHashMap::default();
+        let mut frontier_keys: FxHashSet<String> = FxHashSet::default();
+        for (s, ins) in self.initial_configs() {
+            let k = key(&s);
+            if !frontier_keys.insert(k.clone()) {
+                continue;
             }
+            match ins {
+                Some(ins) if ins.len() < inputs.len() => {
+                    first.insert(k, ins);
+                }
+                _ => {
+                    seen.insert(k);
+                }
+            }
+            frontier.push(s);
         }
-        r.states = seen.len() as u64;
+        r.states = frontier.len() as u64;
         let mut depth = 0u64;
         loop {
             let mut bad_here: Vec<usize> = vec![];
@@ -166,7 +227,8 @@ impl<'a> Ts<'a> {
             // across depths. For "shortest counterexample" global deduplication is sound (BFS).
             let mut next_keys: FxHashMap<String, ()> = FxHashMap::default();
             for s in frontier.iter() {
-                for i in inputs.iter() {
+                let restricted = if depth == 0 { first.get(&key(s)) } else { None };
+                for i in restricted.unwrap_or(&inputs).iter() {
                     if !self.allowed(s, i) {
                         continue;
                     }
@@ -201,7 +263,7 @@ impl<'a> Ts<'a> {
             for n in next_frontier.iter() {
                 seen.insert(key(n));
             }
-            r.states = seen.len() as u64;
+            r.states = (seen.len() + first.len()) as u64;
             if next_frontier.is_empty() {
                 r.fixpoint = true;
                 break;
@@ -215,9 +277,14 @@ impl<'a> Ts<'a> {
     /// largest d <= k such that an execution with allowed steps 0..=d exists (None: not even step 0)
     pub fn constraints_satisfiable_to(&self, k: u64) -> Option<u64> {
         let inputs = self.input_space();
+        let (layers, first) = self.layers_coupled(k);
         let mut out = None;
-        for (d, layer) in self.layers(k).iter().enumerate() {
-            if layer.iter().any(|s| inputs.iter().any(|i| self.allowed(s, i))) {
+        for (d, layer) in layers.iter().enumerate() {
+            let ok = layer.iter().any(|s| {
+                let restricted = if d == 0 { first.get(&key(s)) } else { None };
+                restricted.unwrap_or(&inputs).iter().any(|i| self.allowed(s, i))
+            });
+            if ok {
                 out = Some(d as u64);
             } else {
                 break;
@@ -230,21 +297,34 @@ impl<'a> Ts<'a> {
     /// exactly d allowed steps, for d = 0..=k. Used where the *set of bad indices at depth d*
     /// matters (witness checks), not only the shortest depth.
     pub fn layers(&self, k: u64) -> Vec<Vec<StateVec>> {
+        self.layers_coupled(k).0
+    }
+
+    /// layers plus, for initial states coupled with only some inputs of step 0, those inputs
+    pub fn layers_coupled(&self, k: u64) -> (Vec<Vec<StateVec>>, FxHashMap<String, Vec<InputVec>>) {
         let inputs = self.input_space();
         let mut layers = vec![];
         let mut cur: Vec<StateVec> = vec![];
         let mut seen = FxHashSet::default();
-        for s in self.initial_states() {
-            if seen.insert(key(&s)) {
+        let mut first: FxHashMap<String, Vec<InputVec>> = FxHashMap::default();
+        for (s, ins) in self.initial_configs() {
+            let kk = key(&s);
+            if seen.insert(kk.clone()) {
+                if let Some(ins) = ins
+                    && ins.len() < inputs.len()
+                {
+                    first.insert(kk, ins);
+                }
                 cur.push(s);
             }
         }
-        for _ in 0..=k {
+        for d in 0..=k {
             layers.push(cur.clone());
             let mut nk = FxHashSet::default();
             let mut next = vec![];
             for s in cur.iter() {
-                for i in inputs.iter() {
+                let restricted = if d == 0 { first.get(&key(s)) } else { None };
+                for i in restricted.unwrap_or(&inputs).iter() {
                     if !self.allowed(s, i) {
                         continue;
                     }
@@ -257,6 +337,6 @@ impl<'a> Ts<'a> {
             }
             cur = next;
         }
-        layers
+        (layers, first)
     }
 }
